@@ -525,7 +525,7 @@ package leader
 //@   on call uuid.String as c set myTok = c.result
 //@   on call uuid.String as c set tokDrawn = c.random
 //@   on call KeyValue.Create as c assert C05.fresh_token_per_attempt: tokDrawn && TokenOf(c.value) == myTok
-//@   on call attemptPriorityTakeover assert C10.gate: e.cfg.AllowPriorityTakeover
+//@   on call attemptPriorityTakeover assert C10+C01.gate: e.cfg.AllowPriorityTakeover
 //@   ghost createRefused Bool = false
 //@   on ret KeyValue.Create as r set createRefused = r.result1 != nil
 //@   ensures C10.refused_create_leads_to_the_takeover_check: createRefused && e.cfg.AllowPriorityTakeover ==> calls(attemptPriorityTakeover) == 1
@@ -534,14 +534,14 @@ package leader
 //@   ghost leaderChecked Bool = false
 //@   on load kvElection.isLeader as l set sawLeader = l.value
 //@   on load kvElection.isLeader set leaderChecked = true
-//@   on call KeyValue.Create assert C08+C07.leader_does_not_reacquire: leaderChecked && !sawLeader
+//@   on call KeyValue.Create assert C08+C07+C18.leader_does_not_reacquire: leaderChecked && !sawLeader
 //@   ghost tkNil Bool = false
 //@   on ret attemptPriorityTakeover as r set tkNil = r.result == nil
 //@   ensures C06+C10.nil_result_means_claim: result == nil ==> sawLeader || calls(becomeLeader) == 1 || tkNil
 
 //@ func (e *kvElection) attemptPriorityTakeover(payloadBytes)
 //@   tags C01 C10 C13 C05
-//@   requires C10.gate: e.cfg.AllowPriorityTakeover
+//@   requires C10+C01.gate: e.cfg.AllowPriorityTakeover
 //@   requires C01+C05+C10.takeover_payload: IDOf(payloadBytes) == e.cfg.InstanceID && PrioOf(payloadBytes) == e.cfg.Priority && FreshTok(TokenOf(payloadBytes)) && ParseOK(payloadBytes)
 //@   ghost tkEntry Int = 0
 //@   on ret KeyValue.Get as g when g.result1 == nil set tkEntry = g.result0
@@ -563,6 +563,8 @@ package leader
 //@   on store kvElection.token set tokStored = true
 //@   on store kvElection.revision as s assert C01+C05.token_before_revision: tokStored && s.value == rev
 //@   on store kvElection.revision set e.revSet = true
+//@   on store kvElection.token assert C05+C08+C02+C18.a_running_term_keeps_its_token: !wasLeaderAtLock
+//@   on store kvElection.revision assert C05+C08+C01+C18.a_running_term_keeps_its_revision: !wasLeaderAtLock
 //@   ghost revStoredHere Bool = false
 //@   on store kvElection.revision set revStoredHere = true
 //@   on store kvElection.isLeader as s when s.value assert C07+C05+C02+C10.claim_published_last: tokStored && revStoredHere
@@ -657,6 +659,7 @@ package leader
 //@   ensures C08.demote_iff_claim_cleared: !ctxNilL ==> (wasLeaderL ? (calls(onDemote) == 1 || (calls(onDemote) == 0 && demoteNilSeen)) : calls(onDemote) == 0)
 //@   ensures C09.second_stop: ctxNilL ==> result == ErrAlreadyStopped && calls(cancel) == 0 && calls(onDemote) == 0
 //@   ensures C09.stop_cancels: !ctxNilL ==> result == nil
+//@   ensures C09.stop_waits_for_the_goroutines: !ctxNilL ==> scalls(wg.Wait) == 1
 //@   ensures C01.stop_never_deletes: calls(KeyValue.Delete) == 0 && calls(RevisionDeleter.DeleteRevision) == 0
 
 //@ func (e *kvElection) StopWithContext(ctx, opts)
@@ -693,6 +696,11 @@ package leader
 //@   on return assert C20+C09.stop_wait_is_closed: stopsAnnouncedHere == 0
 //@   on select as s assert C09.stop_waits_time_boxed: s.blocking ==> s.hasAfter
 //@   on select as s assert C09.stop_waits_honour_the_callers_context: s.blocking ==> s.hasDone && s.doneCtx == ctx
+//@   ghost waitOver Bool = false
+//@   on select set waitOver = true
+//@   on call KeyValue.Delete assert C09+C01.the_record_is_deleted_after_the_wait: waitOver
+//@   on call RevisionDeleter.DeleteRevision assert C09+C01.the_record_is_deleted_after_the_wait: waitOver
+//@   on return assert C09.stop_waits_for_the_goroutines: !ctxNilL ==> scalls(wg.Wait) == 1
 //@   ghost dlOK Bool = false
 //@   ghost untilRes Int = 0
 //@   on ret Context.Deadline as d when d.ctx == ctx set dlOK = d.result1
@@ -954,6 +962,7 @@ package leader
 //@   on call becomeFollower set demote_cause = true
 //@   on ret becomeFollower as r set cleared = r.result
 //@   on load kvElection.onDemote as l set demoteSet = l.value != nil
+//@   on store kvElection.healthFailureCount assert C12.the_failure_handler_leaves_the_count_alone: false
 //@   ensures C12.demotes: calls(becomeFollower) == 1
 //@   ensures C12+C08.runs_demote_callback: cleared && demoteSet ==> calls(onDemote) == 1
 //@   ensures C08+C12.demote_iff_claim_cleared: calls(onDemote) == ((cleared && demoteSet) ? 1 : 0)
@@ -1273,6 +1282,7 @@ package leader
 //@   ensures C14.get_error_unchanged: result1 == r1
 //@   ensures C14.get_wraps_entry: r1 == nil && r0 != nil ==> result0 != nil && istype(result0, *natsEntryAdapter) && result0.(*natsEntryAdapter).entry == r0
 //@   ensures C14.get_nil_only_if_client_nil: result1 == nil && result0 == nil ==> r0 == nil
+//@   ensures C14+C04+C13.a_missing_entry_stays_nil: r0 == nil ==> result0 == nil
 
 //@ func (a *natsKeyValueAdapter) Delete(key)
 //@   tags C14
@@ -1483,6 +1493,7 @@ package leader
 //@   ensures C14.mock_get_passthrough: calls(*natsmock.MockKeyValue.Get) == 1
 //@   ensures C14.mock_get_error_unchanged: result1 == r1
 //@   ensures C14.mock_get_wraps_entry: r1 == nil && r0 != nil ==> result0 != nil && istype(result0, *MockEntryAdapter) && result0.(*MockEntryAdapter).Entry == r0
+//@   ensures C14+C04+C13.a_missing_entry_stays_nil: r0 == nil ==> result0 == nil
 
 //@ func (a *MockKeyValueAdapter) Delete(key)
 //@   tags C14
